@@ -4,6 +4,9 @@ import (
 	"errors"
 	"io/fs"
 	"os"
+	"path/filepath"
+	"strconv"
+	"strings"
 	"syscall"
 	"time"
 )
@@ -427,19 +430,39 @@ func OS_Chmod(name string, mode os.FileMode) error {
 	return err
 }
 
+// OS_CreateTemp replaces os.CreateTemp. In simulation the random part of the
+// name is a per-run sequence number, so that paths (and therefore the event
+// log) are deterministic.
 func OS_CreateTemp(dir, pattern string) (*os.File, error) {
 	s := S
-	if s == nil {
+	if s == nil || s.cur == nil {
 		return os.CreateTemp(dir, pattern)
 	}
-	c, err := s.pre("createtemp", dir, os.O_CREATE)
+	if dir == "" {
+		dir = os.TempDir()
+	}
+	c, err := s.pre("createtemp", filepath.Join(dir, pattern), os.O_CREATE)
 	if err != nil {
 		return nil, err
 	}
 	c.Mutating = true
-	f, err := os.CreateTemp(dir, pattern)
+	prefix, suffix := pattern, ""
+	if i := strings.LastIndexByte(pattern, '*'); i >= 0 {
+		prefix, suffix = pattern[:i], pattern[i+1:]
+	}
+	var f *os.File
+	for try := 0; try < 10000; try++ {
+		s.tmpSeq++
+		name := filepath.Join(dir, prefix+strconv.Itoa(s.tmpSeq)+suffix)
+		f, err = os.OpenFile(name, os.O_RDWR|os.O_CREATE|os.O_EXCL, 0600)
+		if os.IsExist(err) {
+			continue
+		}
+		break
+	}
 	c.Err = err
 	if err == nil {
+		c.Path = s.Rel(f.Name())
 		s.touch(f.Name())
 	}
 	s.post(c)
